@@ -22,15 +22,23 @@ KINDS = ("ea", "de", "shade", "cma", "local", "lhs", "sobol")
 class CallLog:
     """Recording objective: every invocation is logged with the deme that was running."""
 
-    def __init__(self, d):
+    def __init__(self, d, kind="smooth"):
         self.d = d
+        self.kind = kind
         self.entries = []  # (level, who, x tuple, value)
         self.current = "init"
+
+    def value(self, x):
+        x = np.asarray(x, dtype=np.float64)
+        if self.kind == "terrace":
+            # plateaus: zero numerical gradient almost everywhere, many exact ties
+            return float(np.sum(np.floor(2 * x) ** 2))
+        return float(np.sum((x - 0.3) ** 2) + 0.1 * np.sum(np.cos(3 * x)))
 
     def wrap(self, level):
         def f(x, *a, **k):
             x = np.asarray(x, dtype=np.float64)
-            v = float(np.sum((x - 0.3) ** 2) + 0.1 * np.sum(np.cos(3 * x)))
+            v = self.value(x)
             self.entries.append((level, self.current, tuple(x.tolist()), v))
             return v
 
@@ -149,7 +157,7 @@ class World:
 
 
 def build(P, kinds, shape, L=2, hibernation=False, generations=2, maximize=False, mech="stub", warm=1, seed=1, d=2,
-          deme_filters="limit1", pop=4):
+          deme_filters="limit1", pop=4, objective="smooth"):
     """Build a tree with the real constructors.  shape: per non-root level, the list of parent indices (into the level
     above) of the demes to create there, e.g. [[0, 0], [1]] = two children of the root, one grandchild under the second."""
     from pyhms.config import TreeConfig
@@ -162,7 +170,7 @@ def build(P, kinds, shape, L=2, hibernation=False, generations=2, maximize=False
     w = World()
     w.P = P
     w.kinds = list(kinds)
-    w.log = CallLog(d)
+    w.log = CallLog(d, objective)
     w.gsc = RecGSC()
     w.gsc.P = P
     w.lscs = [RecLSC() for _ in kinds]
